@@ -86,9 +86,167 @@ let model_ids (w : world) (o : int) : int list = List.sort compare (ints_of_ns (
 let hd_lens (a : alloc) : int list =
   List.map (function None -> -1 | Some b -> List.length b) a.hdata
 
+
+(* ---- scale streams: big operations are judged inside the harness by streaming comparison; the trace
+   carries verdicts (counts, lengths, first differing index).  Here the verdicts become findings:
+   PROPFAIL for the property's clauses (no aliasing, Used() = live + 1, lossless round trip incl. the
+   recorded LZ4 assumption, refusal while hibernated, truncated files rejected), MISMATCH for what only
+   the model defines (Used() = size - gaps, hibernation lengths, file layout via the extracted write_varint). *)
+let big_ops = ["bnewtree"; "bfill"; "bholes"; "berase"; "bclone"; "bchk"; "brt"; "blz"]
+
+let judge_lz pf mm what n v =
+  count "lz4_buffers";
+  match v with
+  | A "ok" -> count "lz4_big_ok"
+  | A "none" -> ()
+  | A "spurious" -> mm (what ^ ": a compressed block for an empty input")
+  | A "empty" -> pf (Printf.sprintf "LZ4 assumption violated (%s): CompressUInt32Slice returned an empty block for %d elements; the buffer cannot be restored" what n)
+  | L [A "diff"; idx; want; got; nd] ->
+      pf (Printf.sprintf "LZ4 round trip failed (%s, %d elements): element %s is %s after DecompressUInt32Slice(CompressUInt32Slice(..)), was %s; %s element(s) differ"
+            what n (atom idx) (atom got) (atom want) (atom nd))
+  | x -> failwith ("lz verdict " ^ string_of_sx x)
+
+let judge_big id c =
+  let ops = args (field "ops" c) and obs = args (field "obs" c) in
+  if List.length ops <> List.length obs then failwith "ops/obs length";
+  List.iteri (fun i (o, ob) ->
+    let here = Printf.sprintf "op#%d %s" i (string_of_sx o) in
+    let mm what = mismatch id (here ^ " " ^ what) in
+    let pf what = propfail id (here ^ " " ^ what) in
+    let res = List.hd (args ob) in
+    let one t x = int_of_sx (List.hd (args (field t x))) in
+    match tag res with
+    | "skip" -> count "skipped"
+    | "hang" -> pf "the operation did not terminate"
+    | "panic" -> mm ("a tree / allocator operation panics on an awake allocator: " ^ string_of_sx res)
+    | "ok" -> ()
+    | "bfill" -> count "big_fills"
+    | "bholes" ->
+        (match List.map int_of_sx (args res) with
+         | [_; lost] -> if lost > 0 then pf (Printf.sprintf "%d element(s) the tree must hold were not found" lost)
+         | _ -> failwith "bholes")
+    | "blz" ->
+        (match args res with
+         | [n; _; v; intact] ->
+             judge_lz pf mm "synthetic buffer" (int_of_sx n) v;
+             if not (bool_of_sx intact) then mm "CompressUInt32Slice modified its input"
+         | _ -> failwith "blz")
+    | "bchk" ->
+        count "big_checkpoints";
+        List.iter (fun a ->
+          match args a with
+          | [_; A "asleep"; _; _] -> count "asleep_states"
+          | ai :: _ ->
+              let ai = int_of_sx ai in
+              let sz = one "sz" a and sz2 = (match args (field "sz" a) with [_; x] -> int_of_sx x | _ -> -1) in
+              let ng = one "ng" a and u = one "u" a and live = one "live" a in
+              count "awake_states_judged";
+              if sz <> sz2 then mm (Printf.sprintf "allocator %d: Size()=%d, storage has %d cells" ai sz2 sz);
+              if u <> sz - ng then mm (Printf.sprintf "allocator %d: Used()=%d, size %d - %d gaps" ai u sz ng);
+              if one "dup" a > 0 then pf (Printf.sprintf "allocator %d: %d cell(s) are reached twice (two owners share a node)" ai (one "dup" a));
+              if one "oob" a > 0 then pf (Printf.sprintf "allocator %d: a tree reaches %d node(s) outside the arena" ai (one "oob" a));
+              if one "gown" a > 0 then pf (Printf.sprintf "allocator %d: %d owned node(s) are gaps" ai (one "gown" a));
+              if one "gbad" a > 0 then pf (Printf.sprintf "allocator %d: %d gap(s) are slot 0 or outside the arena" ai (one "gbad" a));
+              if (sz = 0 && (u <> 0 || live <> 0)) || (sz > 0 && u <> live + 1) then
+                pf (Printf.sprintf "allocator %d: Used()=%d but %d live nodes (+1 reserved)" ai u live);
+              List.iter (fun t -> if tag t = "T" then
+                match args t with
+                | [ti; n; len; reached; L [A "panic"; cls]] ->
+                    pf (Printf.sprintf "tree %s (must hold %s, Len %s, reaches %s) cannot be walked: panic %s" (atom ti) (atom n) (atom len) (atom reached) (atom cls))
+                | [ti; n; len; reached; walked; sorted; sumok] ->
+                    let n = int_of_sx n and len = int_of_sx len and reached = int_of_sx reached and walked = int_of_sx walked in
+                    if reached <> walked then pf (Printf.sprintf "tree %s reaches %d cells but iterates over %d" (atom ti) reached walked);
+                    if walked <> n || len <> n || not (bool_of_sx sumok) || not (bool_of_sx sorted) then
+                      pf (Printf.sprintf "tree %s does not hold exactly its own elements: must hold %d, Len()=%d, iterates over %d, ascending=%s, same keys and values=%s"
+                            (atom ti) n len walked (atom sorted) (atom sumok))
+                | _ -> failwith "T") (args a)
+          | _ -> failwith "A") (args res)
+    | "brt" ->
+        let sz = one "sz" res and ng = one "ng" res and thr = one "thr" res in
+        let hib = args (field "hib" res) in
+        let cmp_judge what =
+          (match field_opt "cmp" res with
+           | Some (L [_; A "same"]) -> count "big_arena_compared"
+           | Some (L [_; A "cell"; idx; b; a; nd]) ->
+               pf (Printf.sprintf "%s: first differing cell #%s was %s is %s; %s of %d cells differ" what (atom idx) (string_of_sx b) (string_of_sx a) (atom nd) sz)
+           | Some x -> pf (Printf.sprintf "%s: %s" what (string_of_sx x))
+           | None -> ()) in
+        (match hib with
+         | A "panic" :: _ -> mm ("Hibernate of an awake allocator panics: " ^ string_of_sx (field "hib" res))
+         | [A "noop"] ->
+             count "hibernate_noop";
+             if sz >= thr && sz > 0 then mm (Printf.sprintf "Hibernate did nothing at size %d, threshold %d" sz thr);
+             cmp_judge "a smaller or empty allocator was not left untouched by Hibernate";
+             (match args (field "after" res) with [A "0"; A "0"] -> () | _ -> mm "hibernation lengths are set after a no-op")
+         | [A "ok"; hs; hg] ->
+             count "hibernations";
+             if sz < thr then pf (Printf.sprintf "an allocator below its threshold (size %d, threshold %d) was hibernated" sz thr);
+             if int_of_sx hs <> sz || int_of_sx hg <> ng then mm (Printf.sprintf "hibernated lengths %s %s, arena %d cells %d gaps" (atom hs) (atom hg) sz ng);
+             let clens = List.map (fun b -> match args b with
+               | [k; n; clen; v] ->
+                   let k = int_of_sx k and n = int_of_sx n in
+                   if k < 6 && n <> sz then mm "field buffer length";
+                   if k = 6 && n <> ng then mm "gap buffer length";
+                   judge_lz pf mm (Printf.sprintf "buffer %d of the hibernated arena" k) n v;
+                   max 0 (int_of_sx clen)
+               | _ -> failwith "b") (args (field "bufs" res)) in
+             List.iteri (fun k r -> if not (bool_of_sx r) then
+               pf ("use of a hibernated allocator was not refused: " ^ (try List.nth ["Used"; "malloc"; "Clone"; "Hibernate"; "Insert"] k with _ -> "?")))
+               (args (field "refused" res));
+             (match field_opt "ser" res with Some x -> mm ("Serialize failed: " ^ string_of_sx x) | None -> ());
+             (match field_opt "file" res with
+              | Some f ->
+                  count "serializations";
+                  (match args f with
+                   | total :: tail :: vs ->
+                       let total = int_of_sx total in
+                       if int_of_sx tail <> 0 then mm (Printf.sprintf "file layout: %s trailing byte(s)" (atom tail));
+                       let expect = sz :: ng :: clens in
+                       if List.length vs <> 9 then failwith "file sections";
+                       List.iteri (fun k (v, e) ->
+                         let bytes = ints_of_sx (List.hd (args v)) in
+                         let want = ints_of_ns (write_varint (n_of_int e)) in
+                         count "varints_checked";
+                         if List.length want >= 3 then count "varints_3_bytes_or_more";
+                         if bytes <> want then mm (Printf.sprintf "file layout: varint %d is %s, write_varint %d = %s" k (show_ints bytes) e (show_ints want));
+                         (match args v with
+                          | [_; n; ok] -> if int_of_sx n <> e || not (bool_of_sx ok) then mm (Printf.sprintf "file layout: payload %d differs from the buffer" (k - 2))
+                          | _ -> ())) (List.combine vs expect);
+                       if not (bool_of_sx (List.hd (args (field "bootser" res)))) then pf "Boot of a serialized allocator was not refused";
+                       List.iter (fun cu -> match cu with
+                         | L [c; e] -> count "deser_truncated";
+                             if not (bool_of_sx e) then pf (Printf.sprintf "Deserialize accepted a file truncated to %s of %d bytes" (atom c) total)
+                         | _ -> failwith "cut") (args (field "cuts" res));
+                       count "deser_nofile";
+                       if not (bool_of_sx (List.hd (args (field "missing" res)))) then pf "Deserialize succeeded without a readable file";
+                       (match args (field "deser" res) with
+                        | [ok; hs; hg; same] ->
+                            count "deser_full";
+                            if not (bool_of_sx ok) then pf "Deserialize rejected the intact file"
+                            else begin
+                              if int_of_sx hs <> sz || int_of_sx hg <> ng then pf "Deserialize succeeded with different lengths";
+                              if not (bool_of_sx same) then pf "Deserialize succeeded with different buffer contents"
+                            end
+                        | _ -> failwith "deser")
+                   | _ -> failwith "file")
+              | None -> ());
+             (match field_opt "boot" res with
+              | Some (L [_; A "ok"]) ->
+                  count "boots";
+                  cmp_judge "the arena after Boot differs from the arena before Hibernate";
+                  (match args (field "used" res) with [b; a] -> if atom b <> atom a then mm ("Used() before " ^ atom b ^ " after " ^ atom a) | _ -> ());
+                  (match args (field "after" res) with [A "0"; A "0"; A "1"] -> () | _ -> mm ("hibernation fields after Boot: " ^ string_of_sx (field "after" res)))
+              | Some (L [_; A "impossible"]) -> pf "the arena cannot be restored: a compressed buffer that Boot needs is empty"
+              | Some x -> pf ("Boot of a hibernated allocator fails, the arena is not restored: " ^ string_of_sx x)
+              | None -> ())
+         | _ -> failwith "hib")
+    | t -> failwith ("unknown big observation " ^ t))
+    (List.combine ops obs)
+
 let () =
   iter_cases (fun id c ->
     let ops = args (field "ops" c) and obs = args (field "obs" c) in
+    if (match ops with o :: _ -> List.mem (tag o) big_ops | [] -> false) then judge_big id c else begin
     if List.length ops <> List.length obs then failwith "ops/obs length";
     let s = { worlds = [| init_world |]; obs = [| initial_ost |]; tree_alloc = [||];
               lz_c = Hashtbl.create 16; lz_d = Hashtbl.create 16; before_hib = Hashtbl.create 4;
@@ -174,8 +332,15 @@ let () =
                 match List.map int_of_sx (args res) with
                 | [1; fid] -> do_free a (arg 0) fid
                 | _ -> count "del_absent")
-          | "erase" ->
+          | "erase" | "drain" ->
               tree_op (arg 0) (fun a -> List.iter (do_free a (arg 0)) (ints_of_sx (List.hd (args res))))
+          | "fill" ->
+              tree_op (arg 0) (fun a ->
+                let ids = ints_of_sx (List.hd (args res)) in
+                count "bulk_fills";
+                let rec dup = function x :: (y :: _ as r) -> x = y || dup r | _ -> false in
+                if dup (List.sort compare ids) then pf "one id was handed out twice within a bulk fill";
+                List.iter (do_malloc a (arg 0)) ids)
           | "cdeep" ->
               let a = arg 1 in
               let nt = Array.length s.tree_alloc in
@@ -406,4 +571,4 @@ let () =
             if not (oracle_used sz nsets (z_of_int o'.ou)) then
               pf (Printf.sprintf "allocator %d: Used()=%d but %d live nodes (+1 reserved)" a o'.ou (List.length (List.concat sets)))
         | _ -> count "asleep_states") states)
-      (List.combine ops obs))
+      (List.combine ops obs) end)
